@@ -246,11 +246,16 @@ impl Adapter<Pop> for PopAd {
         if site.len_change {
             return true;
         }
+        // a two-byte alteration (same mask in two bytes, byte swap) that touches TWO sketch elements can cancel: the
+        // helper only uses z1 + z2 (z1 + d, z2 - d is the documented exception of Appendix E), so the strict oracle
+        // is kept for alterations confined to one field element
+        let fs = if leaf { 32 } else { 8 };
+        let one_elem = site.rel.1 > site.rel.0 && site.rel.0 / fs == (site.rel.1 - 1) / fs;
         match (site.kind, site.region) {
-            (Kind::VShare, _) => true,
+            (Kind::VShare, _) => one_elem,
             // the leader's round-two computation uses only the first sketch element (A*z0 + B); the
             // helper uses all three
-            (Kind::VMsg, _) => site.agg == 1 || site.rel.1 <= if leaf { 32 } else { 8 },
+            (Kind::VMsg, _) => one_elem && (site.agg == 1 || site.rel.1 <= fs),
             (Kind::Input, "idpf_key") | (Kind::Input, "corr_seed") => true,
             (Kind::Input, "corr_inner") => !leaf && site.rel.0 >= 16 * level && site.rel.1 <= 16 * level + 16,
             (Kind::Input, "corr_leaf") => leaf,
